@@ -25,6 +25,7 @@ package trace_test
 // The harness uses the public API only.
 
 import (
+	"os"
 	"context"
 	"encoding/binary"
 	"encoding/hex"
@@ -581,6 +582,30 @@ func opRecordError() op {
 	}
 }
 
+// opRecordErrorWith: RecordError with an attribute of the caller's, or with a stack trace: the event
+// holds the caller's attributes AND the generated ones, all of them under the per-event cap.
+func opRecordErrorWith(stack bool) op {
+	all := []kv{kI("x", 1), kS("exception.type", "?"), kS("exception.message", "boom")}
+	label := "RecordError(errors.New(\"boom\"), WithAttributes(x=1))"
+	if stack {
+		all = []kv{kS("exception.type", "?"), kS("exception.message", "boom"), kS("exception.stacktrace", "?")}
+		label = "RecordError(errors.New(\"boom\"), WithStackTrace(true))"
+	}
+	return op{
+		label: label, kind: "RecordError",
+		real: func(sp trace.Span, pos int) {
+			if stack {
+				sp.RecordError(errBoom, trace.WithTimestamp(tsAt(int64(pos+1))), trace.WithStackTrace(true))
+			} else {
+				sp.RecordError(errBoom, trace.WithTimestamp(tsAt(int64(pos+1))), trace.WithAttributes(attribute.Int64("x", 1)))
+			}
+		},
+		model: func(m *model, pos int) {
+			m.addEvent(mEvent{name: "exception", ts: int64(pos + 1), all: all, isError: true})
+		},
+	}
+}
+
 func opRecordNil() op {
 	return op{
 		label: "RecordError(nil)", kind: "RecordError",
@@ -694,6 +719,14 @@ func subAttr() subx {
 }
 
 func subEvLn() subx {
+	sx := subEvLnBase()
+	if os.Getenv("VERIF_TIER") == "thorough" {
+		sx.ops = append(sx.ops, opRecordErrorWith(true)) // with a stack trace: three generated attributes
+	}
+	return sx
+}
+
+func subEvLnBase() subx {
 	return subx{
 		name: "evln",
 		ops: []op{
@@ -701,6 +734,7 @@ func subEvLn() subx {
 			opEvent("e1", kI("x", 1)),
 			opEvent("e3", kI("x", 1), kS("y", "two"), kI("z", 3)),
 			opRecordError(),
+			opRecordErrorWith(false),
 			opRecordNil(),
 			opLink('A', kI("p", 1), kI("q", 2)),
 			opLink('B'),
@@ -1157,15 +1191,29 @@ func itemAttrsVerdict(got []attribute.KeyValue, gotDropped int, all []kv, keep i
 		return fmt.Sprintf("%d attributes kept and %d dropped, model %d kept and %d dropped (supplied %d)", len(got), gotDropped, keep, len(all)-keep, len(all))
 	}
 	if isError {
+		allowed := map[string]kv{}
+		for _, a := range all {
+			allowed[a.key] = a
+		}
 		seen := map[string]bool{}
 		for _, a := range got {
 			k := string(a.Key)
-			if seen[k] || (k != "exception.type" && k != "exception.message") {
+			m, ok := allowed[k]
+			if seen[k] || !ok {
 				return fmt.Sprintf("unexpected attributes {%s}", attrsCanon(got, false))
 			}
 			seen[k] = true
-			if a.Value.Type() != attribute.STRING || (k == "exception.message" && a.Value.AsString() != "boom") {
-				return fmt.Sprintf("unexpected attributes {%s}", attrsCanon(got, false))
+			switch {
+			case strings.HasPrefix(k, "exception."):
+				if a.Value.Type() != attribute.STRING || (k == "exception.message" && a.Value.AsString() != "boom") {
+					return fmt.Sprintf("unexpected attributes {%s}", attrsCanon(got, false))
+				}
+			default: // an attribute the caller passed to RecordError: as supplied
+				var w []byte
+				w = m.appendCanon(w, -1)
+				if g := attrsCanon([]attribute.KeyValue{a}, false); g != strconv.Quote(k)+"="+string(w) {
+					return fmt.Sprintf("caller's attribute %s, supplied %s=%s", g, strconv.Quote(k), w)
+				}
 			}
 		}
 		return ""
